@@ -186,23 +186,14 @@ class WeakForms(_Simu):
         if results is None:
             return
 
-        if self.algo == AlgoType.elliptic:
-            u = results["u"]
-            self._Set_solutions(self.problemType, u)
-
-        elif self.algo == AlgoType.parabolic:
-            u = results["u"]
-            v = results["v"]
-            self._Set_solutions(self.problemType, u, v)
-
-        elif self.algo in AlgoType.Get_Hyperbolic_Types():
-            u = results["u"]
-            v = results["v"]
-            a = results["a"]
-            self._Set_solutions(self.problemType, u, v, a)
-
+        # the fields stored with the iteration are restored whatever the time scheme has become since
+        u = results["u"]
+        if "v" in results and "a" in results:
+            self._Set_solutions(self.problemType, u, results["v"], results["a"])
+        elif "v" in results:
+            self._Set_solutions(self.problemType, u, results["v"])
         else:
-            raise TypeError("Unknown algo type.")
+            self._Set_solutions(self.problemType, u)
 
         return results
 
